@@ -222,9 +222,31 @@ const (
 	// what a must-style helper re-raising a dig error with panic(err) does.
 	// Logged as a panic (Outcome BehPanic).
 	BehPanicDigErr
+	// BehPanicWrapsPanicErr: panics with an error value that wraps a
+	// dig.PanicError obtained from a helper container (what re-raising the error
+	// of a nested Invoke with panic(err) does). Logged as a panic.
+	BehPanicWrapsPanicErr
 )
 
-func (b Beh) String() string { return [...]string{"ok", "err", "panic", "errvals", "panicdigerr"}[b] }
+func (b Beh) String() string {
+	return [...]string{"ok", "err", "panic", "errvals", "panicdigerr", "panicwrapspanicerr"}[b]
+}
+
+var digPanicErr error
+
+// samplePanicError returns an error produced by dig for a recovered panic of
+// some other function in a helper container (its chain contains a
+// dig.PanicError carrying the helper's panic value).
+func samplePanicError() error {
+	if digPanicErr == nil {
+		c := dig.New(dig.RecoverFromPanics())
+		digPanicErr = c.Invoke(func() { panic("inner panic of a helper container") })
+		if digPanicErr == nil {
+			panic("universe: helper container did not report the panic")
+		}
+	}
+	return digPanicErr
+}
 
 // PanicErrVal is a panic value that is also an error wrapping a dig error.
 type PanicErrVal struct {
@@ -617,10 +639,14 @@ func (rt *Runtime) Body(f *Func, inst string, ft reflect.Type, args []reflect.Va
 		rt.Log = append(rt.Log, Event{Kind: EvExit, Fn: inst, Exec: exec, Outcome: BehPanic, Panic: pv, At: rt.Clock.Elapsed()})
 		panic(pv)
 	}
-	if beh == BehPanicDigErr {
+	if beh == BehPanicDigErr || beh == BehPanicWrapsPanicErr {
 		pv := &PanicVal{Fn: inst, Exec: exec}
 		rt.Log = append(rt.Log, Event{Kind: EvExit, Fn: inst, Exec: exec, Outcome: BehPanic, Panic: pv, At: rt.Clock.Elapsed()})
-		panic(&PanicErrVal{PanicVal: pv, Wrapped: sampleDigError()})
+		w := sampleDigError()
+		if beh == BehPanicWrapsPanicErr {
+			w = samplePanicError()
+		}
+		panic(&PanicErrVal{PanicVal: pv, Wrapped: w})
 	}
 	if (beh == BehErr || beh == BehErrVals) && !f.Err {
 		// a function without an error result cannot fail by error: it panics instead
